@@ -2,7 +2,11 @@
 
 package actionlint
 
-import "gopkg.in/yaml.v3"
+import (
+	"strings"
+
+	"gopkg.in/yaml.v3"
+)
 
 var verifStepsOnlyKeys = []string{"runs-on", "environment", "outputs", "env", "defaults", "steps", "timeout-minutes", "continue-on-error", "container"}
 
@@ -188,9 +192,14 @@ func HarnessC13Missing() {
 	}
 	verifCheck(len(cands) > 0, "skeleton-has-mandatory-key")
 	m := cands[verifChoose("site", len(cands))]
+	// the key is removed, or spelled as a key nobody knows (the entry count stays)
+	rename := verifChoose("rename", 2) == 1
 	var kept []*yaml.Node
 	for i := 0; i+1 < len(m.Content); i += 2 {
 		if m.Content[i].Value != mk.key {
+			kept = append(kept, m.Content[i], m.Content[i+1])
+		} else if rename {
+			m.Content[i].Value = "zz-unknown"
 			kept = append(kept, m.Content[i], m.Content[i+1])
 		}
 	}
@@ -200,4 +209,13 @@ func HarnessC13Missing() {
 	p.parse(doc)
 	verifReach("removed")
 	verifCheck(len(p.errors) >= 1, "missing-mandatory-key-reported")
+	if rename {
+		other := 0
+		for _, e := range p.errors {
+			if !strings.Contains(e.Message, "unexpected key") {
+				other++
+			}
+		}
+		verifCheckf(other >= 1, "missing-mandatory-key-hidden-by-an-unknown-sibling", mk.key)
+	}
 }
